@@ -7,7 +7,7 @@
    Reordering of clauses / facts is Permutation on lists and needs no function.
    No proofs in this file. *)
 From Coq Require Import List ZArith Bool.
-From MV Require Import Datalog.Syntax Datalog.Interp Datalog.Solve.
+From MV Require Import Datalog.Syntax Datalog.Interp Datalog.Solve Datalog.SemiNaive.
 Import ListNotations.
 Open Scope Z_scope.
 
@@ -66,3 +66,10 @@ Definition rn_value (v : Z -> Z) (x : value) : value :=
   match x with VConst c => VConst c | VVar y => VVar (v y) end.
 
 Definition injective (r : Z -> Z) : Prop := forall a b, r a = r b -> a = b.
+
+(* ---- the comparison of two observed fact lists as sets (observer of the check) *)
+Definition same_set (a b : list fact) : bool :=
+  forallb (fun f => mem f b) a && forallb (fun f => mem f a) b.
+
+(* per-clause variable renaming: c' is c with its variables renamed injectively *)
+Definition alpha (c c' : clause) : Prop := exists v, injective v /\ c' = rn_clause v c.
